@@ -17,6 +17,7 @@ exactly (lengths and all other results must be identical in the runs, which is c
 import io
 import json
 import os
+import signal
 import threading
 
 import common
@@ -28,6 +29,7 @@ KNOWN_BYPASS = "C17:streamreader:bypass-stale-position"
 SIO_KEY = "C17:streamable-io:seek-reports-success-when-not-honoured"
 ICE_KEY = "C17:icecast:chunk-larger-than-checked-room"
 ICE_LEN = 1 << 24          # the HTTP body never ends in the icecast cases
+CASE_TIMEOUT = 60          # seconds of wall clock for one history on the implementation
 
 
 # --------------------------------------------------------------------------- content
@@ -328,10 +330,16 @@ def oracle(case, ops, obs):
             return (taint[0], taint[1] + "; then: " + msg, i)
         return (key, msg, i)
 
+    prev_src = prev_size = 0
     for i, (op, ob) in enumerate(zip(ops, obs)):
         t = op[0]
         res = ob["res"]
-        if t == "add":
+        if t == "download":
+            taken, stored = ob["src"] - prev_src, ob["size"] - prev_size
+            if taint is None and stored < taken and op[1] > case["block"]:
+                taint = (ICE_KEY, "download at op %d: fits(BLOCK_SIZE=%d) was checked but a chunk of %d bytes (icy-metaint) "
+                         "was add()ed and only %d were stored" % (i, case["block"], taken, stored))
+        elif t == "add":
             k = res[1]
             flat = [o + j for (o, l) in op[1] for j in range(l)]
             if k > len(flat):
@@ -393,17 +401,23 @@ def oracle(case, ops, obs):
                     return fail("C17:%s:premature-eof" % name, "read(%d) returned nothing at offset %d of %d "
                                 "(protected=%s, remaining=%d)" % (n, c, length, ob["prot"], ob["rem"]), i)
         prev_pos = ob["pos"]
+        prev_src, prev_size = ob["src"], ob["size"]
     return None
 
 
 # --------------------------------------------------------------------------- Coq terms
 
+def cnum(n):
+    assert n >= 0
+    return str(n)            # the generated files open N_scope
+
+
 def c_optN(n):
-    return "None" if n is None or n < 0 else "(Some %s)" % common.cN(n)
+    return "None" if n is None or n < 0 else "(Some %s)" % cnum(n)
 
 
 def c_data(runs):
-    return "[" + "; ".join("(%s, %s)" % (common.cN(o), common.cN(l)) for (o, l) in runs) + "]"
+    return "[" + "; ".join("(%s, %s)" % (cnum(o), cnum(l)) for (o, l) in runs) + "]"
 
 
 def c_op(op):
@@ -411,11 +425,11 @@ def c_op(op):
     if t == "add":
         return "OAdd %s" % c_data(op[1])
     if t == "get":
-        return "OGet %s" % common.cN(op[1])
+        return "OGet %s" % cnum(op[1])
     if t == "fits":
-        return "OFits %s" % common.cN(op[1])
+        return "OFits %s" % cnum(op[1])
     if t == "seek":
-        return "OSeek %s %s" % (common.cN(op[1]), common.cbool(op[2]))
+        return "OSeek %s %s" % (cnum(op[1]), common.cbool(op[2]))
     if t == "prot":
         return "OProt %s" % common.cbool(op[1])
     if t == "read":
@@ -426,7 +440,7 @@ def c_op(op):
 def c_res(res):
     t = res[0]
     if t == "num":
-        return "RNum %s" % common.cN(res[1])
+        return "RNum %s" % cnum(res[1])
     if t == "data":
         return "RData %s" % c_data(res[1])
     if t == "bool":
@@ -439,14 +453,14 @@ def c_res(res):
 
 
 def c_obs(ob):
-    return "mkobs (%s) %s %s %s %s" % (c_res(ob["res"]), common.cN(ob["pos"]), common.cN(ob["size"]),
-                                      common.cN(ob["rem"]), common.cN(ob["src"]))
+    return "mkobs (%s) %s %s %s %s" % (c_res(ob["res"]), cnum(ob["pos"]), cnum(ob["size"]),
+                                      cnum(ob["rem"]), cnum(ob["src"]))
 
 
 def coq_case(case, ops, obs):
     return "(%s, %s, %s, %s, %s,\n  [%s],\n  [%s])" % (
-        COQKIND[case["kind"]], common.cN(case["size"]), common.cN(case["head"]), common.cbool(case["prot"]),
-        common.cN(case["len"]), "; ".join(c_op(o) for o in ops),
+        COQKIND[case["kind"]], cnum(case["size"]), cnum(case["head"]), common.cbool(case["prot"]),
+        cnum(case["len"]), "; ".join(c_op(o) for o in ops),
         "; ".join(c_obs(o) for o in (obs or [])))
 
 
@@ -456,7 +470,7 @@ class StopDriver(Exception):
     pass
 
 
-def run_ice(case, digit):
+def run_ice_once(case, digit):
     """Drive PatchedIceCastClient._download_stream and .read/.seek deterministically from one
     thread: consumer operations of the script are executed whenever the download loop reaches
     one of its two waiting points (sleep while the block does not fit, read of the HTTP body)."""
@@ -475,7 +489,9 @@ def run_ice(case, digit):
     cli.BLOCK_SIZE = block
     script = list(case["ops"])
     ops, raw = [], []
-    state = {"i": 0, "audio": 0, "phys": bytearray()}
+    # "slice": a download marker of the script has been consumed and the download loop is about
+    # to use it (one fits() check and, if the block fits, one iteration)
+    state = {"i": 0, "audio": 0, "pending": None, "slice": False}
     sh = 8 * digit
 
     def audio(n):
@@ -487,8 +503,14 @@ def run_ice(case, digit):
         ops.append(op)
         raw.append((r, (buf.position, buf.size, buf.remaining, state["audio"], bool(buf.protected_headroom))))
 
+    def finalize():
+        # the chunk handed out at the previous waiting point has been add()ed by now
+        if state["pending"] is not None:
+            record(state["pending"], ("none",))
+            state["pending"] = None
+
     def consumer_until_download():
-        """Run scripted consumer ops; returns at the next download marker (consumed) or stops the driver."""
+        """Run scripted consumer ops up to (and including) the next download marker."""
         while True:
             if state["i"] >= len(script):
                 raise StopDriver()
@@ -498,9 +520,9 @@ def run_ice(case, digit):
                 return
             if op[0] == "read":
                 n = min(op[1], len(buf))           # a larger read would wait for the download thread
-                record(("read", n), ("data", bytes(cli.read(n))))
+                record(("read", n, None), ("data", bytes(cli.read(n))))
             elif op[0] == "seek":
-                record(op, ("bool", bool(cli.seek(op[1], miniaudio.SeekOrigin.START))))
+                record(("seek", op[1], True), ("bool", bool(cli.seek(op[1], miniaudio.SeekOrigin.START))))
             elif op[0] == "prot":
                 try:
                     buf.protected_headroom = op[1]
@@ -512,28 +534,27 @@ def run_ice(case, digit):
         headers = {"icy-metaint": str(meta)} if meta else {}
 
         def __init__(self):
-            self.pending = b""      # physical bytes of the current meta interval not yet handed out
-            self.fresh = True
+            self.left = b""         # physical bytes of the current meta interval not yet handed out
 
         def read(self, n):
             if not meta:
-                consumer_until_download()
-                before = state["audio"]
-                d = audio(n)
-                record(("download", n), ("none",))
-                state["last"] = len(raw) - 1
-                return d
-            # ICY framing: meta bytes of audio, then one length byte 0 (no metadata)
-            if self.fresh:
-                consumer_until_download()
-                self.pending = audio(meta) + b"\x00"
-                self.fresh = False
-                record(("download", meta), ("none",))
-                state["last"] = len(raw) - 1
-            d = self.pending[:n]
-            self.pending = self.pending[n:]
-            if not self.pending:
-                self.fresh = True
+                finalize()
+                if not state["slice"]:
+                    consumer_until_download()
+                state["slice"] = False
+                k = n if case.get("short") is None else max(1, min(n, case["short"]))
+                state["pending"] = ("download", k)
+                return audio(k)
+            # ICY framing: `meta` bytes of audio, then one length byte 0 (= no metadata)
+            if not self.left:
+                finalize()
+                if not state["slice"]:
+                    consumer_until_download()
+                state["slice"] = False
+                state["pending"] = ("download", meta)
+                self.left = audio(meta) + b"\x00"
+            d = self.left[:n]
+            self.left = self.left[n:]
             return d
 
     class Handle:
@@ -562,10 +583,13 @@ def run_ice(case, digit):
 
         @staticmethod
         def sleep(x):
-            # the block does not fit: the download loop waits; the marker is a no-op
+            # the block does not fit: the download loop waits
+            finalize()
+            if state["slice"]:
+                record(("download", meta or block), ("none",))     # the marker was used up by a failed fits()
+                state["slice"] = False
             consumer_until_download()
-            record(("download", meta or block), ("none",))
-            state["last"] = None
+            state["slice"] = True
 
     old = (A.requests, A.time)
     A.requests, A.time = Requests, Time
@@ -576,9 +600,123 @@ def run_ice(case, digit):
             pass
     finally:
         A.requests, A.time = old
-    # the snapshot of a download op must be taken after add(): patch it up from the next record;
-    # simpler: re-take snapshots in a second pass is impossible, so record the buffer state lazily
-    return ops, raw, buf
+    return ops, raw
+
+
+def run_ice(case):
+    try:
+        ops, raw = run_ice_once(case, 0)
+        runs = [raw]
+        maxoff = max([r[1][3] for r in raw] + [0])
+        for digit in range(1, ndigits(maxoff)):
+            ops2, raw2 = run_ice_once(case, digit)
+            if ops2 != ops:
+                raise ImplError("behaviour depends on the content of the bytes", ops)
+            runs.append(raw2)
+    except ImplError:
+        raise
+    except Exception as ex:
+        raise ImplError("%s: %r" % (type(ex).__name__, ex), None)
+    return ops, combine(runs)
+
+
+def c_iop(op):
+    t = op[0]
+    if t == "download":
+        return "IDownload %s" % cnum(op[1])
+    if t == "read":
+        return "IRead %s" % cnum(op[1])
+    if t == "seek":
+        return "ISeek %s" % cnum(op[1])
+    return "IProt %s" % common.cbool(op[1])
+
+
+def coq_ice_case(case, ops, obs):
+    return "(%s, %s, %s, %s, %s,\n  [%s],\n  [%s])" % (
+        cnum(case["block"]), cnum(case["size"]), cnum(case["head"]), common.cbool(case["prot"]),
+        cnum(ICE_LEN), "; ".join(c_iop(o) for o in ops), "; ".join(c_obs(o) for o in obs))
+
+
+def gen_ice_case(rng, size, head, block, meta, nops):
+    ops = []
+    for _ in range(nops):
+        r = rng.random()
+        if r < 0.5:
+            ops.append(("download",))
+        elif r < 0.85:
+            ops.append(("read", rng.choice([1, 2, head, block, size, rng.randint(1, size + 1)])))
+        elif r < 0.95:
+            ops.append(("seek", rng.choice([0, 0, 1, head - 1, head, rng.randint(0, size)])))
+        else:
+            ops.append(("prot", rng.random() < 0.3))
+    # finish: rewind when possible, un-protect, drain what is stored
+    ops += [("seek", 0), ("prot", False)] + [("read", max(1, size // 3))] * 5 + [("download",)] * 2 + \
+           [("read", max(1, size // 3))] * 4 + [("download",)]
+    return {"kind": "ice", "size": size, "head": head, "prot": rng.random() < 0.6, "block": block, "meta": meta,
+            "short": rng.choice([None, None, None, 1, max(1, block // 2)]) if not meta else None,
+            "len": ICE_LEN, "ops": ops}
+
+
+def real_reader_run(case):
+    """The same StreamReaderWrapper history with nothing substituted: a real asyncio.StreamReader
+    served by an event loop running in another thread (as in production, where read() is called
+    from executor threads).  Returns raw results with (position, size, remaining)."""
+    import asyncio as real_asyncio
+    import miniaudio
+    from pyatv.support.buffer import SemiSeekableBuffer
+    A = audio_source()
+    loop = real_asyncio.new_event_loop()
+    t = threading.Thread(target=loop.run_forever, daemon=True)
+    t.start()
+    shim = A.asyncio
+    A.asyncio = real_asyncio
+    try:
+        buf = SemiSeekableBuffer(case["size"], seekable_headroom=case["head"], protected_headroom=case["prot"])
+        data = content(case["len"], 0)
+
+        async def make():
+            reader = real_asyncio.StreamReader()
+            reader.feed_data(data)
+            reader.feed_eof()
+            return A.StreamReaderWrapper(reader, buf)
+
+        w = real_asyncio.run_coroutine_threadsafe(make(), loop).result(10)
+        out = []
+        for op in case["ops"]:
+            if op[0] == "read":
+                r = ("data", bytes(w.read(op[1])))
+            elif op[0] == "seek":
+                r = ("bool", bool(w.seek(op[1], miniaudio.SeekOrigin.START if op[2] else miniaudio.SeekOrigin.CURRENT)))
+            else:
+                r = do_op("srw", w, buf, None, op, 0)
+            out.append((r, (buf.position, buf.size, buf.remaining)))
+        return out
+    finally:
+        A.asyncio = shim
+        loop.call_soon_threadsafe(loop.stop)
+        t.join(10)
+        loop.close()
+
+
+def real_reader_cross_check(ctx, count):
+    """Validates the synchronous substitute for run_coroutine_threadsafe against the real thing."""
+    rng = ctx.rng
+    bad = 0
+    for _ in range(count):
+        size, head = rng.choice(SMALL + MEDIUM)
+        case = gen_wrapper_case(rng, "srw", size, head, rng.randint(1, 12))
+        case["ops"] = [(o[0], o[1], None) if o[0] == "read" else o for o in case["ops"]]   # StreamReader: no short reads here
+        w, buf, src = build("srw", case["size"], case["head"], case["prot"], case["len"], 0)
+        a = []
+        for op in case["ops"]:
+            r = do_op("srw", w, buf, src, op, 0)
+            a.append((r, (buf.position, buf.size, buf.remaining)))
+        b = real_reader_run(case)
+        ctx.count("real-streamreader-thread-runs")
+        if a != b:
+            bad += 1
+            ctx.tie_broken("driver:streamreader-shim-differs-from-real-loop", json.dumps({"case": case}, default=list)[:2000])
+    return bad
 
 
 # --------------------------------------------------------------------------- generation
@@ -694,11 +832,19 @@ def exhaustive_cases(kind, size, head, prot, maxlen):
 
 def evaluate(ctx, case, origin, coq_items):
     """Run one case: implementation, oracle, registration for the Coq comparison."""
+    def on_alarm(signum, frame):
+        raise ImplError("no result after %d s (the implementation does not terminate on this history?)" % CASE_TIMEOUT, None)
+
+    old = signal.signal(signal.SIGALRM, on_alarm)
+    signal.setitimer(signal.ITIMER_REAL, CASE_TIMEOUT)
     try:
-        ops, obs = run_impl(case)
+        ops, obs = run_ice(case) if case["kind"] == "ice" else run_impl(case)
     except ImplError as ex:
         ctx.violation("C17:%s:exception" % KEY[case["kind"]], str(ex.args[0]), {"case": case})
         return
+    finally:
+        signal.setitimer(signal.ITIMER_REAL, 0)
+        signal.signal(signal.SIGALRM, old)
     ctx.count("kind:" + case["kind"])
     ctx.count("origin:" + origin)
     if obs is None:
@@ -718,7 +864,8 @@ def evaluate(ctx, case, origin, coq_items):
     for op in ops:
         ctx.count("op:" + op[0])
     ctx.count("size:%s" % ("tiny" if case["size"] <= 16 else "medium" if case["size"] <= 1024 else "production"))
-    canon = (case["kind"], case["size"], case["head"], case["prot"], case["len"], tuple(map(tuple_deep, ops)))
+    canon = (case["kind"], case["size"], case["head"], case["prot"], case["len"], case.get("block"),
+             tuple(map(tuple_deep, ops)))
     ctx.case(canon, nontrivial=nbytes > 0,
              sample={"kind": case["kind"], "size": case["size"], "headroom": case["head"], "protected": case["prot"],
                      "source_len": case["len"], "ops": [list(o) for o in ops[:14]],
@@ -732,24 +879,34 @@ def tuple_deep(x):
     return x
 
 
-def coq_compare(ctx, coq_items, per=700):
+def coq_compare(ctx, all_items, per=700):
     items = []
-    for i in range(0, len(coq_items), per):
-        chunk = coq_items[i:i + per]
-        txt = ("From Coq Require Import List NArith. Import ListNotations.\n"
-               "From PV Require Import Common.Cases C17.Model.\nLocal Open Scope N_scope.\n"
-               "Definition cases : list (kind * N * N * bool * N * list op * list obs) := [\n%s\n].\n"
-               "Eval vm_compute in (bad_indices check_case cases).\n"
-               % ";\n".join(coq_case(*c) for c in chunk))
-        items.append(("cases_%03d" % (i // per), txt))
-    res = common.coq_run_many(items, ctx.pid, timeout=900)
+    ice = [c for c in all_items if c[0]["kind"] == "ice"]
+    coq_items = [c for c in all_items if c[0]["kind"] != "ice"] + ice      # ice cases go last, in files of their own
+    n_plain = len(coq_items) - len(ice)
+    bounds = list(range(0, n_plain, per)) + list(range(n_plain, len(coq_items), per))
+    for i in bounds:
+        is_ice = i >= n_plain
+        chunk = coq_items[i:min(i + per, len(coq_items) if is_ice else n_plain)]
+        hdr = ("From Coq Require Import List NArith. Import ListNotations.\n"
+               "From PV Require Import Common.Cases C17.Model.\nLocal Open Scope N_scope.\n")
+        if is_ice:
+            txt = hdr + ("Definition cases : list (N * N * N * bool * N * list iop * list obs) := [\n%s\n].\n"
+                         "Eval vm_compute in (bad_indices check_ice cases).\n"
+                         % ";\n".join(coq_ice_case(*c) for c in chunk))
+        else:
+            txt = hdr + ("Definition cases : list (kind * N * N * bool * N * list op * list obs) := [\n%s\n].\n"
+                         "Eval vm_compute in (bad_indices check_case cases).\n"
+                         % ";\n".join(coq_case(*c) for c in chunk))
+        items.append(("cases_%06d" % i, txt))
+    res = common.coq_run_many(items, ctx.pid, timeout=900, par=14)
     nbad = 0
     for name, (rc, out) in sorted(res.items()):
         bad = common.parse_eval_nat_list(out) if rc == 0 else None
         if bad is None:
             ctx.tie_broken("correspondence:" + name, out)
         elif bad:
-            base = int(name.split("_")[1]) * per
+            base = int(name.split("_")[1])
             for b in bad[:3]:
                 case, ops, obs = coq_items[base + b]
                 nbad += 1
@@ -777,7 +934,7 @@ def run(ctx):
                     evaluate(ctx, case, "exhaustive", coq_items)
     # 3. generated histories, tiny to production sizes
     mult = 8 if ctx.thorough else 1
-    plan = [(SMALL, 2400 * mult, 14), (MEDIUM, 700 * mult, 14), (LARGE, 160 * mult, 12)]
+    plan = [(SMALL, 1800 * mult, 14), (MEDIUM, 560 * mult, 14), (LARGE, 140 * mult, 12)]
     for sizes, count, nops in plan:
         for j in range(count):
             size, head = sizes[j % len(sizes)]
@@ -791,15 +948,28 @@ def run(ctx):
                 case["drain"] = rng.choice([4096, 8192, 1000, 16384, size, size // 2 + 1])
                 case["drain_max"] = 30
             evaluate(ctx, case, "generated", coq_items)
+    # 4. PatchedIceCastClient: download loop and reader interleaved deterministically
+    ice_plan = [(4, 1, 2), (4, 2, 1), (8, 4, 2), (8, 3, 3), (16, 8, 4), (64, 32, 8), (65536, 32768, 8192)]
+    for j in range(350 * mult):
+        size, head, block = ice_plan[j % len(ice_plan)]
+        meta = 0 if j % 3 else rng.choice([1, block - 1, block, block]) or 1     # chunk <= BLOCK_SIZE
+        if j % 10 == 9:
+            meta = rng.choice([block + 1, 2 * block - 1, min(size, 2 * block)])      # the recorded finding
+        case = gen_ice_case(rng, size, head, block, meta, rng.randint(2, 14))
+        evaluate(ctx, case, "generated", coq_items)
     # constructor guard
     for (size, head) in ((1, 2), (0, 1), (4, 5)):
         evaluate(ctx, {"kind": "buf", "size": size, "head": head, "prot": False, "len": 0, "ops": []}, "ctor", coq_items)
+    real_reader_cross_check(ctx, 200 if ctx.thorough else 40)
     ctx.traces = len(coq_items)
     ctx.rule = ("operation histories (read/seek/protect for the wrappers; add/get/seek/protect/fits for the buffer) "
                 "followed by an optional rewind+unprotect and a drain; exhaustive up to length %d over a 10-letter "
                 "alphabet for buffers (2,1),(2,2),(3,2) x protected x {buffer, BufferedIOBaseWrapper, "
                 "StreamReaderWrapper}; generated for %d size/headroom pairs up to (65536,32768) with short source "
-                "reads; non-trivial = at least one byte was returned; distinct by (kind, sizes, executed history)"
+                "reads, also through StreamableIOBaseWrapper and StreamableSourceWrapper; PatchedIceCastClient: generated "
+                "interleavings of download iterations and read/seek/protect for 7 (size, headroom, BLOCK_SIZE) triples up "
+                "to production, with and without icy-metaint; non-trivial = at least one byte was returned; "
+                "distinct by (kind, sizes, executed history)"
                 % (maxlen, len(SMALL) + len(MEDIUM) + len(LARGE)))
     coq_compare(ctx, coq_items)
     ctx.trusted += [
@@ -807,14 +977,19 @@ def run(ctx):
         "pyatv/protocols/raop/audio_source.py, tied by the differential run of this file evaluated in Coq by vm_compute "
         "(results, position, size, remaining and number of bytes taken from the source after every operation)",
         "fake non-seekable file / StreamReader with scripted short reads; asyncio.run_coroutine_threadsafe replaced "
-        "inside audio_source by a synchronous runner (harness/c17.py)",
+        "inside audio_source by a synchronous runner (harness/c17.py), cross-checked on every run against a real "
+        "asyncio.StreamReader served by an event loop in another thread",
+        "PatchedIceCastClient driven without its thread: requests.get and time.sleep/monotonic inside audio_source are "
+        "replaced, the download loop and the reader are interleaved deterministically at the loop's two waiting points; "
+        "ICY metadata blocks are empty (length byte 0)",
         "returned bytes are identified by running each history on up to three contents (base-256 digits of the "
         "offset); relies on the code not branching on byte values, which the runs cross-check",
     ]
     ctx.assumptions += [
         "sizes and offsets are non-negative; the only negative read size is -1",
         "buffer created with 1 <= headroom <= size (the constructor enforces headroom <= size)",
-        "one wrapper is used from one thread at a time",
+        "one wrapper is used from one thread at a time; PatchedIceCastClient: add() and get() are atomic (its lock)",
+        "the source itself delivers its bytes in order (short reads allowed, a read of 0 bytes only at end of stream)",
     ]
 
 
@@ -834,15 +1009,22 @@ def case_from_json(c):
 def replay(ctx, path):
     d = json.load(open(path))
     r = d.get("replay", d)
+    if "case" not in r:
+        print("this replay file records a broken proof obligation / correspondence, not an input:")
+        print(json.dumps(d.get("broken", d), indent=1)[:3000])
+        return 1
     case = case_from_json(r["case"])
     try:
-        ops, obs = run_impl(case)
+        ops, obs = run_ice(case) if case["kind"] == "ice" else run_impl(case)
     except ImplError as ex:
         print("implementation raised:", ex.args[0])
         return 1
     if obs is None:
         print("constructor raised ValueError")
         return 0
+    print("%s size=%d headroom=%d protected=%s source_len=%d%s" % (
+        KEY[case["kind"]], case["size"], case["head"], case["prot"], case["len"],
+        " BLOCK_SIZE=%d icy-metaint=%d" % (case["block"], case["meta"]) if case["kind"] == "ice" else ""))
     for op, ob in zip(ops, obs):
         print("  %-28s -> %-40s position=%d size=%d remaining=%d taken-from-source=%d" % (
             op, ob["res"][1:] if len(ob["res"]) > 1 else ob["res"][0], ob["pos"], ob["size"], ob["rem"], ob["src"]))
